@@ -130,6 +130,7 @@ func c19Run[T any](typ string, mk func(int) T, ops []c19Op, classes *c19Classes)
 	for _, op := range ops {
 		func() {
 			name := c19OpNames[op.Code]
+			simrt.SetLabel(name)
 			defer func() {
 				if r := recover(); r != nil {
 					emit(name, "panic: "+firstLine(fmt.Sprint(r)))
@@ -354,6 +355,13 @@ func (propC19) Cases(tier string) int {
 }
 
 func (propC19) Run(ctx *Ctx, index int) {
+	if ctx.Prog.Choose(3) == 2 {
+		dp := genC19Derived(ctx.Prog)
+		runC19Derived(ctx, dp)
+		ctx.Res.Desc = dp
+		ctx.Res.ProgKey = jsonKey(dp)
+		return
+	}
 	prog := genC19(ctx.Prog)
 	ctx.Res.Desc = prog
 	ctx.Res.ProgKey = jsonKey(prog)
@@ -389,46 +397,7 @@ func (propC19) Run(ctx *Ctx, index int) {
 	refLogs, _, refRes := run(false)
 	logs, classes, res := run(true)
 	ctx.Res.NonTrivial = res.Switches >= 3
-	for _, r := range append(append([]simrt.Race{}, refRes.Races...), res.Races...) {
-		ctx.Violate("C19", "race", r.Sig, fmt.Sprintf("%s race on %s between tasks %d and %d working on their own instances: %s vs %s", r.Kind, r.Var, r.TaskA, r.TaskB, r.SiteA, r.SiteB))
-	}
-	for _, rr := range []*simrt.Result{refRes, res} {
-		if rr.End != "done" {
-			ctx.Violate("C19", "no-termination", rr.End, "scripts on disjoint instances did not terminate: "+rr.String())
-			return
-		}
-		for _, t := range rr.Tasks {
-			if t.Panicked {
-				ctx.Violate("C19", "task-panic", normMsg(t.PanicStr), fmt.Sprintf("task %s panicked: %s\n%s", t.Name, t.PanicStr, t.Stack))
-			}
-		}
-	}
-	for i := range logs {
-		a, b := refLogs[i], logs[i]
-		for k := 0; k < len(a) || k < len(b); k++ {
-			var x, y string
-			if k < len(a) {
-				x = a[k]
-			}
-			if k < len(b) {
-				y = b[k]
-			}
-			if x != y {
-				opn := x
-				if j := strings.IndexByte(opn, '='); j >= 0 {
-					opn = opn[:j]
-				}
-				if opn == "" {
-					opn = y
-					if j := strings.IndexByte(opn, '='); j >= 0 {
-						opn = opn[:j]
-					}
-				}
-				ctx.Violate("C19", "result-differs-from-serial", opn, fmt.Sprintf("task %d (%s elements): running alone gave %q, running next to the other tasks gave %q", i, prog.Tasks[i].Type, x, y))
-				break
-			}
-		}
-	}
+	c19Compare(ctx, refLogs, logs, refRes, res, func(i int) string { return prog.Tasks[i].Type + " elements" })
 	var keys []string
 	for k := range classes.seen {
 		keys = append(keys, k)
@@ -463,3 +432,333 @@ func (propC19) Meta() PropMeta {
 }
 
 func init() { register(propC19{}) }
+
+// ---- derived instances --------------------------------------------------------------------------
+//
+// Second program shape: main builds base collections and instances derived from
+// them through the library's own functions (set algebra, Concatenate, Merge,
+// Extract, GetValues, GetKeys, copy constructors, several iterators over one
+// collection); every task then works on ONE of these instances, all distinct.
+// Creation happens before the tasks are spawned, so any unordered conflicting
+// access is state shared between distinct instances behind the caller's back.
+
+type c19Inst struct {
+	Name string
+	Kind string // set list catalog iterator sequence
+	obj  any
+}
+
+func c19Pool[T any](typ string, mk func(int) T) []c19Inst {
+	notation := cdcn.Notation().Make()
+	vals := func(n, a int) []T {
+		out := make([]T, 0, n)
+		for i := 0; i < n; i++ {
+			out = append(out, mk((a*7+i*5)%11))
+		}
+		return out
+	}
+	sets := col.Set[T](notation)
+	a := sets.MakeFromArray(vals(4, 1))
+	b := sets.MakeFromArray(vals(4, 2))
+	lists := col.List[T](notation)
+	l1 := lists.MakeFromArray(vals(4, 3))
+	l2 := lists.MakeFromArray(vals(3, 4))
+	cats := col.Catalog[string, T](notation)
+	c1 := cats.Make()
+	c2 := cats.Make()
+	for i, v := range vals(4, 5) {
+		c1.SetValue(fmt.Sprintf("k%d", i), v)
+		c2.SetValue(fmt.Sprintf("k%d", i+2), v)
+	}
+	keys := col.List[string](notation).MakeFromArray([]string{"k1", "k3", "k9"})
+	return []c19Inst{
+		{"set-operand-A", "set", a},
+		{"set-operand-B", "set", b},
+		{"set-And-result", "set", sets.And(a, b)},
+		{"set-Or-result", "set", sets.Or(a, b)},
+		{"set-Sans-result", "set", sets.Sans(a, b)},
+		{"set-Xor-result", "set", sets.Xor(a, b)},
+		{"set-copy-of-A", "set", sets.MakeFromSequence(a)},
+		{"list-L1", "list", l1},
+		{"list-L2", "list", l2},
+		{"list-Concatenate-result", "list", lists.Concatenate(l1, l2)},
+		{"list-copy-of-L1", "list", lists.MakeFromSequence(l1)},
+		{"list-L1-GetValues", "sequence", l1.GetValues(1, 3)},
+		{"set-A-GetValues", "sequence", a.GetValues(1, 2)},
+		{"catalog-C1", "catalog", c1},
+		{"catalog-C2", "catalog", c2},
+		{"catalog-Merge-result", "catalog", cats.Merge(c1, c2)},
+		{"catalog-Extract-result", "catalog", cats.Extract(c1, keys)},
+		{"catalog-C1-GetKeys", "keys", c1.GetKeys()},
+		{"iterator-1-over-L1", "iterator", l1.GetIterator()},
+		{"iterator-2-over-L1", "iterator", l1.GetIterator()},
+		{"stack-from-L1", "stack", col.Stack[T](notation).MakeFromSequence(l1)},
+		{"array-from-L1", "array", col.Array[T](notation).MakeFromSequence(l1)},
+	}
+}
+
+const c19PoolSize = 22
+
+func c19UseInstance[T any](inst c19Inst, mk func(int) T, ops []c19Op) (log []string) {
+	emit := func(name string, v any) { log = append(log, name+"="+fmt.Sprintf("%v", v)) }
+	for _, op := range ops {
+		func() {
+			name := inst.Name
+			simrt.SetLabel(name)
+			defer func() {
+				if r := recover(); r != nil {
+					emit(name, "panic: "+firstLine(fmt.Sprint(r)))
+				}
+			}()
+			switch inst.Kind {
+			case "set":
+				s := inst.obj.(col.SetLike[T])
+				switch op.Code % 5 {
+				case 0:
+					emit(name+".contains", s.ContainsValue(mk(op.A)))
+				case 1:
+					emit(name+".index", s.GetIndex(mk(op.B)))
+				case 2:
+					s.AddValue(mk(op.A + op.B))
+					emit(name+".add", s.AsArray())
+				case 3:
+					s.RemoveValue(mk(op.A))
+					emit(name+".remove", s.AsArray())
+				default:
+					emit(name+".array", s.AsArray())
+				}
+			case "list":
+				l := inst.obj.(col.ListLike[T])
+				switch op.Code % 5 {
+				case 0:
+					emit(name+".index", l.GetIndex(mk(op.A)))
+				case 1:
+					l.AppendValue(mk(op.B))
+					emit(name+".append", l.AsArray())
+				case 2:
+					l.SortValues()
+					emit(name+".sort", l.AsArray())
+				case 3:
+					l.ReverseValues()
+					emit(name+".reverse", l.AsArray())
+				default:
+					emit(name+".String", any(l).(fmt.Stringer).String())
+				}
+			case "catalog":
+				c := inst.obj.(col.CatalogLike[string, T])
+				switch op.Code % 4 {
+				case 0:
+					emit(name+".get", c.GetValue(fmt.Sprintf("k%d", op.A)))
+				case 1:
+					c.SetValue(fmt.Sprintf("k%d", op.A), mk(op.B))
+					emit(name+".set", c.GetKeys().AsArray())
+				case 2:
+					c.SortValues()
+					emit(name+".sort", c.GetKeys().AsArray())
+				default:
+					emit(name+".remove", c.RemoveValue(fmt.Sprintf("k%d", op.B)))
+				}
+			case "keys":
+				k := inst.obj.(col.Sequential[string])
+				emit(name+".array", k.AsArray())
+			case "sequence":
+				q := inst.obj.(col.Sequential[T])
+				it := q.GetIterator()
+				var walk []T
+				for it.HasNext() {
+					walk = append(walk, it.GetNext())
+				}
+				emit(name+".walk", []any{q.GetSize(), walk})
+			case "iterator":
+				it := inst.obj.(agent.IteratorLike[T])
+				switch op.Code % 3 {
+				case 0:
+					emit(name+".next", []any{it.HasNext(), it.GetNext(), it.GetSlot()})
+				case 1:
+					emit(name+".previous", []any{it.HasPrevious(), it.GetPrevious(), it.GetSlot()})
+				default:
+					it.ToSlot(op.A - 2)
+					emit(name+".toslot", it.GetSlot())
+				}
+			case "stack":
+				st := inst.obj.(col.StackLike[T])
+				if op.Code%2 == 0 && st.GetSize() > 0 {
+					emit(name+".pop", st.RemoveTop())
+				} else {
+					emit(name+".array", st.AsArray())
+				}
+			case "array":
+				ar := inst.obj.(col.ArrayLike[T])
+				switch op.Code % 3 {
+				case 0:
+					ar.SortValues()
+					emit(name+".sort", ar.AsArray())
+				case 1:
+					ar.SetValue(1+op.A%ar.GetSize(), mk(op.B))
+					emit(name+".set", ar.AsArray())
+				default:
+					emit(name+".String", any(ar).(fmt.Stringer).String())
+				}
+			}
+		}()
+	}
+	return log
+}
+
+type c19DerivedProg struct {
+	Shape   string    `json:"shape"`
+	Type    string    `json:"type"`
+	Picks   []int     `json:"instances"`
+	Names   []string  `json:"instance_names"`
+	Ops     [][]c19Op `json:"ops"`
+	Preempt int       `json:"access_preempt_permille"`
+}
+
+func genC19Derived(t *simrt.Tape) *c19DerivedProg {
+	p := &c19DerivedProg{Shape: "derived-instances", Type: c19Types[t.Choose(len(c19Types))]}
+	n := t.Range(2, 5)
+	used := map[int]bool{}
+	// bias: instances that are related to each other (same family) meet often
+	base := t.Choose(c19PoolSize)
+	for len(p.Picks) < n {
+		var k int
+		if t.Choose(3) > 0 {
+			k = (base + t.Choose(7)) % c19PoolSize
+		} else {
+			k = t.Choose(c19PoolSize)
+		}
+		for used[k] {
+			k = (k + 1) % c19PoolSize
+		}
+		used[k] = true
+		p.Picks = append(p.Picks, k)
+		m := t.Range(1, 4)
+		var ops []c19Op
+		for i := 0; i < m; i++ {
+			ops = append(ops, c19Op{Code: t.Choose(5), A: t.Choose(6), B: t.Choose(7)})
+		}
+		p.Ops = append(p.Ops, ops)
+	}
+	p.Preempt = []int{0, 20, 100, 300}[t.Choose(4)]
+	return p
+}
+
+func c19DerivedTyped[T any](ctx *Ctx, p *c19DerivedProg, typ string, mk func(int) T) {
+	n := len(p.Picks)
+	run := func(concurrent bool) ([][]string, *simrt.Result) {
+		logs := make([][]string, n)
+		res := ctx.Sim(func(c *simrt.Config) {
+			c.RandSeed = ctx.Seed | 1
+			c.StepCap = 200000
+			if concurrent {
+				c.AccessPreempt = float64(p.Preempt) / 1000
+			} else {
+				c.Strategy = simrt.StratLowest
+			}
+		}, func() {
+			pool := c19Pool[T](typ, mk)
+			if len(p.Names) == 0 {
+				for _, k := range p.Picks {
+					p.Names = append(p.Names, pool[k].Name)
+				}
+			}
+			var wg simrt.WaitGroup
+			for i, k := range p.Picks {
+				i, inst := i, pool[k]
+				wg.Add(1)
+				simrt.GoNamed(fmt.Sprintf("user%d", i), func() {
+					defer wg.Done()
+					logs[i] = c19UseInstance[T](inst, mk, p.Ops[i])
+				})
+				if !concurrent {
+					wg.Wait()
+				}
+			}
+			wg.Wait()
+		})
+		return logs, res
+	}
+	refLogs, refRes := run(false)
+	logs, res := run(true)
+	ctx.Res.NonTrivial = res.Switches >= 3
+	c19Compare(ctx, refLogs, logs, refRes, res, func(i int) string { return p.Names[i] })
+}
+
+// c19Compare applies the race / termination / serial-equivalence oracles.
+func c19Compare(ctx *Ctx, refLogs, logs [][]string, refRes, res *simrt.Result, who func(int) string) {
+	for _, r := range append(append([]simrt.Race{}, refRes.Races...), res.Races...) {
+		sig := r.Sig
+		if r.LabelA != "" || r.LabelB != "" {
+			la, lb := r.LabelA, r.LabelB
+			if la > lb {
+				la, lb = lb, la
+			}
+			sig += "@" + la + "/" + lb
+		}
+		ctx.Violate("C19", "race", sig, fmt.Sprintf("%s race on %s between task %d (%s) and task %d (%s), each working on its own instance: %s vs %s", r.Kind, r.Var, r.TaskA, r.LabelA, r.TaskB, r.LabelB, r.SiteA, r.SiteB))
+	}
+	for _, rr := range []*simrt.Result{refRes, res} {
+		if rr.End != "done" {
+			ctx.Violate("C19", "no-termination", rr.End, "scripts on disjoint instances did not terminate: "+rr.String())
+			return
+		}
+		for _, t := range rr.Tasks {
+			if t.Panicked {
+				ctx.Violate("C19", "task-panic", normMsg(t.PanicStr), fmt.Sprintf("task %s panicked: %s\n%s", t.Name, t.PanicStr, t.Stack))
+			}
+		}
+	}
+	for i := range logs {
+		a, b := refLogs[i], logs[i]
+		for k := 0; k < len(a) || k < len(b); k++ {
+			var x, y string
+			if k < len(a) {
+				x = a[k]
+			}
+			if k < len(b) {
+				y = b[k]
+			}
+			if x != y {
+				opn := x
+				if opn == "" {
+					opn = y
+				}
+				if j := strings.IndexByte(opn, '='); j >= 0 {
+					opn = opn[:j]
+				}
+				ctx.Violate("C19", "result-differs-from-serial", opn, fmt.Sprintf("task %d (%s): running alone gave %q, running next to the other tasks gave %q", i, who(i), x, y))
+				break
+			}
+		}
+	}
+}
+
+func runC19Derived(ctx *Ctx, p *c19DerivedProg) {
+	switch p.Type {
+	case "int":
+		c19DerivedTyped[int](ctx, p, "int", func(i int) int { return i*3 - 7 })
+	case "string":
+		c19DerivedTyped[string](ctx, p, "string", func(i int) string { return fmt.Sprintf("s%c%d", 'a'+rune(i%5), i) })
+	case "slice":
+		c19DerivedTyped[[]int](ctx, p, "[]int", func(i int) []int {
+			out := make([]int, i%4)
+			for k := range out {
+				out[k] = (i + k*2) % 5
+			}
+			return out
+		})
+	default:
+		c19DerivedTyped[any](ctx, p, "any", func(i int) any {
+			switch i % 4 {
+			case 0:
+				return i
+			case 1:
+				return fmt.Sprintf("v%d", i)
+			case 2:
+				return []int{i, i + 1}
+			default:
+				return float64(i) / 2
+			}
+		})
+	}
+}
